@@ -13,7 +13,7 @@ TARGET_CACHE = os.path.join(SCRATCH, "target-r")
 class Harness:
     """The harness binary built (dev and, on demand, release) against a fresh overlay of /repo."""
 
-    def __init__(self, tag="r", features=("more",)):
+    def __init__(self, tag="r", features=()):
         self.run_dir = new_run_dir(tag)
         self.features = features
         ensure_nalgebra()
@@ -23,7 +23,6 @@ class Harness:
         tmpl = open(os.path.join(HARNESS_DIR, "Cargo.toml.in")).read()
         tmpl = (tmpl.replace("@OVERLAY@", self.overlay).replace("@SYM@", SYM_DIR)
                 .replace("@NALGEBRA@", NALGEBRA_PATCHED).replace("@HARNESS_SRC@", os.path.join(HARNESS_DIR, "src")))
-        tmpl += "\n[features]\nmore = []\n"
         open(os.path.join(self.crate, "Cargo.toml"), "w").write(tmpl)
         lock = os.path.join(VERIF, "engine_r", "harness", "Cargo.lock")
         if os.path.exists(lock):
@@ -89,7 +88,7 @@ class Budget:
         self.tier = tier
         self.inc_s = 5 if tier == "quick" else 20          # per query, incremental session
         self.full_s = 20 if tier == "quick" else 240       # per query and configuration, standalone portfolio
-        self.max_paths = 12 if tier == "quick" else 48
+        self.max_paths = 64 if tier == "quick" else 160
 
 
 class Result:
@@ -187,31 +186,77 @@ def numeric_failures(doc64, prefixes, tol=1e-6):
     return bad
 
 
+class Encoded:
+    """Both encodings (plain with division, fraction-free) of one symbolic run; builds per-goal queries that
+    carry only the constraints (sqrt definitions, non-zero divisors) of the nodes in the goal's own cone."""
+
+    def __init__(self, arena, doc, extra_roots=()):
+        self.arena = arena
+        self.trace = doc["trace"]
+        self.assumes = doc["out"]["assumes"]
+        roots = set(extra_roots)
+        self.ctx_roots = set()
+        for (a, op, b, _o) in self.trace:
+            self.ctx_roots.update((a, b))
+        for (a, op, b) in self.assumes:
+            self.ctx_roots.update((a, b))
+        roots |= self.ctx_roots
+        roots.discard(-1)
+        self.ids = arena.cone(roots)
+        self.uf = arena.has_uf(self.ids)
+        self.pcons = {}
+        self.pdefs = arena.definitions(self.ids, self.pcons)
+        self.pc = [f"(assert {arena.rel(a, op, b, o)})" for (a, op, b, o) in self.trace]
+        self.asm = [f"(assert {arena.rel(a, op, b)})" for (a, op, b) in self.assumes]
+        self.ctx_cone = arena.cone(self.ctx_roots)
+        self.div_assumed = True
+        self.ff = None
+        if arena.divisors(self.ids) and not self.uf:
+            try:
+                self.ff = smt.FF(arena, self.ids)
+                self.ff_pc = [f"(assert {self.ff.rel(a, op, b, o)})" for (a, op, b, o) in self.trace]
+                self.ff_asm = [f"(assert {self.ff.rel(a, op, b)})" for (a, op, b) in self.assumes]
+            except Exception:
+                self.ff = None
+
+    def _plain_cons(self, cone, assume_div):
+        out = []
+        for i in cone:
+            out += self.pcons.get(i, [])
+        if assume_div:
+            out += [f"(assert (not (= {self.arena.name(d)} 0.0)))" for d in self.arena.divisors(cone) if self.arena.nodes[d][0] != "c"]
+        return out
+
+    def base_plain(self, goal_roots=(), assume_div=True, upto=None):
+        cone = self.arena.cone(set(goal_roots) | self.ctx_roots) if goal_roots else self.ctx_cone
+        pc = self.pc if upto is None else self.pc[:upto]
+        return self.pdefs + self._plain_cons(cone, assume_div) + self.asm + pc
+
+    def variants_eq(self, a, b, negate=True):
+        """queries for `a != b` (negated obligation) in both encodings"""
+        goal = f"(assert (not (= {self.arena.name(a)} {self.arena.name(b)})))"
+        v = [("plain", self.base_plain((a, b)), [goal])]
+        if self.ff is not None:
+            cone = self.arena.cone({a, b} | self.ctx_roots)
+            base = self.ff.lines + self.ff.constraints_for(cone) + self.ff_asm + self.ff_pc
+            v.append(("ff", base, [f"(assert {self.ff.rel(a, '!=', b)})"]))
+        return v
+
+
 def analyze_run(h, res, scenario, cfg, doc, prefixes, budget, replay_dir, expect_sat=()):
-    """Discharge every selected obligation of one symbolic run (= one path).  Returns the Arena and base
-    lines (for path exploration)."""
+    """Discharge every selected obligation of one symbolic run (= one path)."""
     arena = smt.Arena(doc["nodes"])
     obs, facts = select_obligations(doc, prefixes)
-    trace = doc["trace"]
-    assumes = doc["out"]["assumes"]
     roots = set()
-    for (a, op, b, _o) in trace:
-        roots.update((a, b))
-    for (a, op, b) in assumes:
-        roots.update((a, b))
     for ob in obs:
         for (_l, a, b) in ob["eqs"]:
             roots.update((a, b))
     garbage = -1 in roots
-    roots.discard(-1)
-    ids = arena.cone(roots)
-    uf = arena.has_uf(ids)
-    defs = arena.definitions(ids)
-    pc = [f"(assert {arena.rel(a, op, b, o)})" for (a, op, b, o) in trace]
-    asm = [f"(assert {arena.rel(a, op, b)})" for (a, op, b) in assumes]
-    base = defs + asm + pc
+    enc = Encoded(arena, doc, roots)
+    ids, uf, pc = enc.ids, enc.uf, enc.pc
     cfg_label = scenario + ":" + ",".join(f"{k}={v}" for k, v in sorted(cfg.items()))
     res.runs += 1
+    res.transitions = getattr(res, "transitions", 0) + len(doc["trace"])
     if doc.get("concretised", 0) > 0:
         res.tool_errors.append(f"{cfg_label}: a symbolic value was concretised {doc['concretised']} times (encoding incomplete)")
     # ---- facts (concrete on this path)
@@ -222,29 +267,29 @@ def analyze_run(h, res, scenario, cfg, doc, prefixes, budget, replay_dir, expect
     if doc.get("garbage_reads", 0) > 0 or garbage:
         record_violation(h, res, scenario, cfg, doc, "C10.no_garbage", f"{doc.get('garbage_reads')} reads of uninitialised scalars", prefixes, replay_dir, inputs=doc["vars"], native_confirm=False)
     # ---- path feasibility (vacuity guard for everything below)
-    v2, _ = smt.solve_text(base, [], budget.full_s, uf=uf, stats=res.stats)
+    check_div = getattr(res, "check_divisors", True)
+    base0 = enc.base_plain(assume_div=False)
+    v2, _ = smt.solve_text(base0, [], budget.full_s, uf=uf, stats=res.stats)
     if v2.result == "unsat":
         res.tool_errors.append(f"{cfg_label}: path condition unsatisfiable (vacuous path)")
-        return arena, base, ids
+        return enc
     if v2.result != "sat":
         res.undischarged.append((cfg_label, "path-feasibility", repr(v2)))
     # ---- divisors are non-zero on this path (definedness; "all values stay finite" over the reals)
-    divs = [d for d in arena.divisors(ids) if arena.nodes[d][0] != "c"]
-    goals = [[f"(assert (= {arena.name(dnode)} 0.0))"] for dnode in divs]
-    verdicts = solve_many(base, goals, budget, uf, res.stats)
-    div_asm = []
-    for dnode, goal, v in zip(divs, goals, verdicts):
-        res.obligations += 1
-        if v.result == "unsat":
-            res.discharged += 1
-        elif v.result == "sat":
-            vals = model_via_api(base, goal, list(var_names(arena, ids)), budget.full_s)
-            record_violation(h, res, scenario, cfg, doc, "divisor_nonzero", f"divisor node {dnode} can be zero on this path", prefixes, replay_dir,
-                             inputs=model_inputs(arena, ids, vals, doc), native_confirm="nonfinite")
-        else:
-            res.undischarged.append((cfg_label, f"divisor_nonzero#{dnode}", repr(v)))
-        div_asm.append(f"(assert (not (= {arena.name(dnode)} 0.0)))")
-    base = base + div_asm
+    if check_div:
+        divs = [d for d in arena.divisors(ids) if arena.nodes[d][0] != "c"]
+        variants = [[("plain", enc.base_plain((d,), assume_div=False), [f"(assert (= {arena.name(d)} 0.0))"])] for d in divs]
+        verdicts = solve_many_variants(variants, budget, uf, res.stats)
+        for dnode, var, v in zip(divs, variants, verdicts):
+            res.obligations += 1
+            if v.result == "unsat":
+                res.discharged += 1
+            elif v.result == "sat":
+                vals = model_via_api(var[0][1], var[0][2], list(var_names(arena, ids)), budget.full_s)
+                record_violation(h, res, scenario, cfg, doc, "divisor_nonzero", f"divisor node {dnode} can be zero on this path", prefixes, replay_dir,
+                                 inputs=model_inputs(arena, ids, vals, doc), native_confirm="nonfinite")
+            else:
+                res.undischarged.append((cfg_label, f"divisor_nonzero#{dnode}", repr(v)))
     # ---- equalities
     todo = []
     for ob in obs:
@@ -256,26 +301,48 @@ def analyze_run(h, res, scenario, cfg, doc, prefixes, budget, replay_dir, expect
                 res.identical += 1
                 res.discharged += 1
                 continue
-            todo.append((ob["name"], label, a, b, [f"(assert (not (= {arena.name(a)} {arena.name(b)})))"]))
-    verdicts = solve_many(base, [t[4] for t in todo], budget, uf, res.stats)
-    for (oname, label, a, b, goal), v in zip(todo, verdicts):
+            todo.append((ob["name"], label, a, b))
+    variants = [enc.variants_eq(t[2], t[3]) for t in todo]
+    verdicts = solve_many_variants(variants, budget, uf, res.stats)
+    for (oname, label, a, b), var, v in zip(todo, variants, verdicts):
         full = f"{oname}/{label}"
         if v.result == "unsat":
             res.discharged += 1
             res.nontrivial.add((arena.struct_hash(a), arena.struct_hash(b)))
             if len(res.samples) < 6 and len(res.samples) < 1 + res.runs:
                 res.samples.append({"config": cfg_label, "obligation": full, "verdict": repr(v),
-                                    "query": (goal[0][:300]), "path_condition": pc[:6], "term_nodes": len(ids)})
+                                    "query": (var[0][2][0][:300]), "path_condition": pc[:6], "term_nodes": len(ids)})
         elif v.result == "sat":
-            vals = model_via_api(base, goal, list(var_names(arena, ids)), budget.full_s)
+            vals = model_via_api(var[0][1], var[0][2], list(var_names(arena, ids)), budget.full_s)
             record_violation(h, res, scenario, cfg, doc, oname, f"{label}: solver found inputs with lhs != rhs", prefixes, replay_dir,
                              inputs=model_inputs(arena, ids, vals, doc), shadow_inputs=doc["vars"], label=label)
         else:
             res.undischarged.append((cfg_label, full, repr(v)))
-    return arena, base, ids
+    return enc
 
 
-def solve_many(base, goals, budget, uf, stats, workers=12):
+def solve_many_variants(variants, budget, uf, stats, workers=10):
+    from concurrent.futures import ThreadPoolExecutor
+    if not variants:
+        return []
+    local = [dict() for _ in variants]
+
+    def one(i):
+        v, _ = smt.solve_variants(variants[i], budget.full_s, uf=uf, stats=local[i])
+        return v
+    with ThreadPoolExecutor(max_workers=workers) as ex:
+        out = list(ex.map(one, range(len(variants))))
+    for st in local:
+        stats["queries"] += st.get("queries", 0)
+        stats["solver_s"] += st.get("solver_s", 0.0)
+        for k, (c, t) in st.get("by_solver", {}).items():
+            stats["by_solver"].setdefault(k, [0, 0.0])
+            stats["by_solver"][k][0] += c
+            stats["by_solver"][k][1] += t
+    return out
+
+
+def solve_many(base, goals, budget, uf, stats, workers=10):
     """discharge many small queries in parallel, one solver process each (an incremental z3 session is
     far slower on these nonlinear queries than a fresh process: measured 5 s vs 0.03 s)"""
     from concurrent.futures import ThreadPoolExecutor
@@ -372,30 +439,22 @@ def explore(h, res, scenario, cfg, prefixes, budget, replay_dir):
         seen_paths.add(sig)
         paths += 1
         res.paths += 1
-        arena, base, ids = analyze_run(h, res, scenario, cfg, doc, prefixes, budget, replay_dir)
-        # children: flip decision i >= bound under the prefix
+        enc = analyze_run(h, res, scenario, cfg, doc, prefixes, budget, replay_dir)
+        arena = enc.arena
         trace = doc["trace"]
-        assumes = doc["out"]["assumes"]
-        roots = set()
-        for (a, op, b, _o) in trace:
-            roots.update((a, b))
-        for (a, op, b) in assumes:
-            roots.update((a, b))
-        pids = arena.cone(roots)
-        defs = arena.definitions(pids)
-        asm = [f"(assert {arena.rel(a, op, b)})" for (a, op, b) in assumes]
-        names = var_names(arena, pids)
+        names = var_names(arena, enc.ctx_cone)
+        ctx_defs = enc.pdefs + enc._plain_cons(enc.ctx_cone, False) + enc.asm
         for i in range(bound, len(trace)):
-            prefix = [f"(assert {arena.rel(a, op, b, o)})" for (a, op, b, o) in trace[:i]]
+            prefix = enc.pc[:i]
             a, op, b, o = trace[i]
             flip = [f"(assert {arena.rel(a, op, b, not o)})"]
-            v, _ = smt.solve_text(defs + asm + prefix, flip, budget.inc_s, uf=arena.has_uf(pids), stats=res.stats, configs=smt.SOLVER_CONFIGS[:3])
+            v, _ = smt.solve_text(ctx_defs + prefix, flip, budget.inc_s, uf=enc.uf, stats=res.stats, configs=smt.SOLVER_CONFIGS[:3])
             if v.result == "unsat":
                 continue
             vals = None
             if v.result == "sat":
                 try:
-                    vals = model_via_api(defs + asm + prefix, flip, list(names), budget.full_s)
+                    vals = model_via_api(ctx_defs + prefix, flip, list(names), budget.full_s)
                 except Exception as e:
                     vals = None
             if vals is None:
@@ -408,3 +467,39 @@ def explore(h, res, scenario, cfg, prefixes, budget, replay_dir):
             work.append((new_inputs, i + 1))
     if work:
         res.frontier_unknown += len(work)
+
+
+# =============================================================================================
+# vacuity twins: a deliberately wrong specification must be refuted (sat) and the refutation must replay
+# =============================================================================================
+def vacuity_twins(h, res, prop, budget, configs=None, prefixes=None):
+    import props_r
+    spec = props_r.R_PROPS[prop]
+    prefixes = prefixes or spec.get("twin_prefixes") or spec["prefixes"]
+    tw = props_r.twin_configs(prop)
+    for (scenario, cfg) in tw:
+        doc = h.run("sym", scenario, cfg)
+        label = scenario + ":" + ",".join(f"{k}={v}" for k, v in sorted(cfg.items()))
+        if doc.get("crash"):
+            res.tool_errors.append(f"vacuity twin {label} crashed")
+            continue
+        arena = smt.Arena(doc["nodes"])
+        obs, _facts = select_obligations(doc, prefixes)
+        roots = set()
+        for ob in obs:
+            for (_l, a, b) in ob["eqs"]:
+                roots.update((a, b))
+        enc = Encoded(arena, doc, roots)
+        goals = [(ob["name"], l, a, b) for ob in obs for (l, a, b) in ob["eqs"] if a != b and a >= 0 and b >= 0]
+        verdicts = solve_many_variants([enc.variants_eq(g[2], g[3]) for g in goals[:24]], budget, enc.uf, res.stats)
+        sat = [g for g, v in zip(goals, verdicts) if v.result == "sat"]
+        # fact-based obligations: the twin must make at least one selected fact come out false
+        sat += [f for f in _facts if not f[1] and f[0] != "no_panic"]
+        native = False
+        if sat:
+            d64 = h.run("f64", scenario, cfg)
+            res.replays += 1
+            native = bool(numeric_failures(d64, prefixes))
+        res.vacuity.append({"config": label, "wrong_spec_obligations": len(goals), "refuted_by_solver": len(sat), "refutation_replays_natively": native})
+        if not sat or not native:
+            res.tool_errors.append(f"vacuity twin {label}: the deliberately wrong specification was not refuted (solver sat={len(sat)}, native={native})")
